@@ -8,7 +8,6 @@ import (
 	"context"
 	"errors"
 	"fmt"
-	"math/rand"
 	"runtime"
 	"sort"
 	"strings"
@@ -514,7 +513,7 @@ var kinds4 = []string{"absent", "ok", "error", "panic"}
 // cancel the parent context while the phases run without gates; the yield points and the phases
 // only perturb the scheduling.  Output: {"hist":[events]} per scenario.
 func recordSvc(n int, seed int64) {
-	rng := rand.New(rand.NewSource(seed))
+	rng := rt.NewRand(seed)
 	for i := 0; i < n; i++ {
 		runtime.GOMAXPROCS(1 + rng.Intn(8))
 		cfg := svcCfg{Run: kinds4[1+rng.Intn(3)], Shut: kinds4[rng.Intn(4)], Clean: kinds4[rng.Intn(4)],
@@ -524,7 +523,7 @@ func recordSvc(n int, seed int64) {
 		}
 		w := newSvcWorld(cfg, false)
 		var ymu sync.Mutex
-		yr := rand.New(rand.NewSource(rng.Int63()))
+		yr := rt.NewRand(rng.Int63())
 		weight := rng.Intn(4) // how strongly the yield points are perturbed in this scenario
 		y := func() {
 			ymu.Lock()
